@@ -481,6 +481,8 @@ mod mon_bytes_run {
         let deep_sizes: Vec<usize> = if thorough { vec![4200, 11_000, 20_500] } else { vec![4200, 20_500] };
         let deep = crate::mon_trace::deep_block(if thorough { 1500 } else { 150 }, seed, pickle_fuzzer::verif::Config { snapshots: false, choices: false, step_limit: 0 }, &deep_sizes, &check_c01);
         acc.merge(deep);
+        let ie = crate::mon_trace::int_edge_block(if thorough { 30_000 } else { 3_000 }, seed, &check_c01);
+        acc.merge(ie);
         cli_layer(&mut acc, thorough, false, check_c01);
         for h in big_handles {
             match h.join() {
@@ -583,6 +585,8 @@ mod mon_bytes_run {
         let deep_sizes: Vec<usize> = if thorough { vec![4200, 20_500, 40_000] } else { vec![4200, 20_500] };
         let deep = crate::mon_trace::deep_block(if thorough { 1500 } else { 150 }, seed, pickle_fuzzer::verif::Config { snapshots: false, choices: false, step_limit: 0 }, &deep_sizes, &check_c04);
         acc.merge(deep);
+        let ie = crate::mon_trace::int_edge_block(if thorough { 30_000 } else { 3_000 }, seed, &check_c04);
+        acc.merge(ie);
         cli_layer(&mut acc, thorough, true, check_c04);
         if acc.get("cases_unsafe") < 1000 {
             acc.inconclusive.push("too few unsafe-mode cases".into());
@@ -605,6 +609,8 @@ mod mon_bytes_run {
         let deep_sizes: Vec<usize> = if thorough { vec![4200, 11_000, 20_500] } else { vec![4200, 20_500] };
         let deep = crate::mon_trace::deep_block(if thorough { 1500 } else { 150 }, seed, pickle_fuzzer::verif::Config { snapshots: false, choices: false, step_limit: 0 }, &deep_sizes, &check_c05);
         acc.merge(deep);
+        let ie = crate::mon_trace::int_edge_block(if thorough { 30_000 } else { 3_000 }, seed, &check_c05);
+        acc.merge(ie);
         cli_layer(&mut acc, thorough, false, check_c05);
         for p in 0..6 {
             if acc.get(&format!("pickles_P{}", p)) < 100 {
@@ -739,6 +745,54 @@ mod mon_bytes_run {
             if acc.get("cli_files_checked") < 100 {
                 acc.inconclusive.push("too few CLI-written files checked".into());
             }
+            // write faults that hit a sample after some bytes were written (file-size limit of 1 KiB,
+            // SIGXFSZ ignored, pickles of 200+ opcodes): if the tool nevertheless reports success,
+            // what it left behind are its samples, and a framed sample cut short breaks the rule
+            for (k, samples) in [3usize, 8, 10, 12].iter().enumerate() {
+                let proto = 4 + (k % 2) as u8;
+                let d = std::env::temp_dir().join(format!("pfv-c06-fault-{}-{}", std::process::id(), k));
+                let _ = std::fs::remove_dir_all(&d);
+                let out = std::process::Command::new("bash")
+                    .arg("-c")
+                    .arg("ulimit -f 1; trap '' XFSZ; exec \"$@\"")
+                    .arg("_")
+                    .arg(&cli)
+                    .arg("--dir")
+                    .arg(&d)
+                    .args(["--samples", &samples.to_string(), "--protocol", &proto.to_string(), "--seed", "0", "--min-opcodes", "200", "--max-opcodes", "300"])
+                    .output();
+                acc.evaluations += 1;
+                acc.count("cli_write_fault_runs", 1);
+                if let Ok(o) = out {
+                    if o.status.success() {
+                        acc.count("cli_write_fault_runs_reporting_success", 1);
+                        if let Ok(rd) = std::fs::read_dir(&d) {
+                            for e in rd.flatten() {
+                                let b = std::fs::read(e.path()).unwrap_or_default();
+                                let complete = matches!(crate::lexer::lex(&b), Ok(l) if l.end == b.len());
+                                if !complete {
+                                    let msg = format!(
+                                        "the CLI reported success (exit 0) for --samples {} --protocol {} under a 1 KiB file-size limit, but {} is a {}-byte fragment: its FRAME (if any) announces more than follows and there is no STOP",
+                                        samples,
+                                        proto,
+                                        e.file_name().to_string_lossy(),
+                                        b.len()
+                                    );
+                                    acc.violate(Violation {
+                                        property: "C06".into(),
+                                        signature: format!("C06:cli_file:fragment_in_successful_run:P{}", proto),
+                                        message: msg.clone(),
+                                        replay: json!({"kind": "c06-cli", "property": "C06", "protocol": proto, "message": msg,
+                                            "history": "bash -c 'ulimit -f 1; trap \"\" XFSZ; exec pickle-fuzzer --dir D --samples N --protocol P --seed 0 --min-opcodes 200 --max-opcodes 300'"}),
+                                    });
+                                    break;
+                                }
+                            }
+                        }
+                    }
+                }
+                let _ = std::fs::remove_dir_all(&d);
+            }
         }
         if acc.get("framed_pickles") < 1000 {
             acc.inconclusive.push("too few framed pickles observed".into());
@@ -783,6 +837,64 @@ mod mon_bytes_run {
                 jobs.push((5, false, false, k % 2 == 0, true));
             }
             let n_plain = jobs.len() - FALSY.len();
+            // sparse environments: switches that are not exported at all (the script supports that
+            // with ${INPUT_X:-}); (unsafe, ext, buf) as Some(value) / None = absent
+            let sparse: Vec<(Option<&str>, Option<&str>, Option<&str>)> = vec![
+                (Some("true"), None, None),
+                (None, Some("true"), None),
+                (Some("yes"), Some("false"), None),
+                (Some("1"), None, Some("false")),
+                (None, None, None),
+                (Some("false"), None, None),
+                (None, None, Some("TRUE")),
+            ];
+            let sparse_ref = &sparse;
+            let sp_acc = par_run(
+                sparse.len(),
+                Acc::new,
+                |i, acc| {
+                    let (u, e, b) = sparse_ref[i];
+                    let mut inputs: Vec<(&str, String)> = vec![("INPUT_PROTOCOL", "5".to_string()), ("INPUT_MUTATORS", "bitflip".to_string())];
+                    if let Some(v) = u {
+                        inputs.push(("INPUT_UNSAFE_MUTATIONS", v.to_string()));
+                    }
+                    if let Some(v) = e {
+                        inputs.push(("INPUT_ALLOW_EXT", v.to_string()));
+                    }
+                    if let Some(v) = b {
+                        inputs.push(("INPUT_ALLOW_BUFFER", v.to_string()));
+                    }
+                    let truthy = |x: Option<&str>| matches!(x, Some("true") | Some("TRUE") | Some("yes") | Some("1"));
+                    let (e_on, b_on) = (truthy(e), truthy(b));
+                    match action_batch(&inputs, samples / 3 + 1) {
+                        Err(m) => acc.inconclusive.push(format!("action wrapper run failed (sparse environment): {}", m)),
+                        Ok(files) => {
+                            acc.count("wrapper_sparse_environment_runs", 1);
+                            'files: for bytes in &files {
+                                acc.evaluations += 1;
+                                for ins in crate::lexer::lex_lenient(bytes) {
+                                    let is_ext = matches!(ins.op.name, "EXT1" | "EXT2" | "EXT4");
+                                    let is_buf = matches!(ins.op.name, "NEXT_BUFFER" | "READONLY_BUFFER");
+                                    if (is_ext && !e_on) || (is_buf && !b_on) {
+                                        let msg = format!(
+                                            "action wrapper output for protocol 5 contains {} although the inputs were unsafe_mutations={:?} allow_ext={:?} allow_buffer={:?} (None = not exported)",
+                                            ins.op.name, u, e, b
+                                        );
+                                        acc.violate(Violation {
+                                            property: "C10".into(),
+                                            signature: format!("C10:wrapper_sparse:{}:P5", ins.op.name),
+                                            message: msg.clone(),
+                                            replay: json!({"kind": "c10-cli", "property": "C10", "frontend": "scripts/action-run.sh", "message": msg}),
+                                        });
+                                        break 'files;
+                                    }
+                                }
+                            }
+                        }
+                    }
+                },
+                |a, b| a.merge(b),
+            );
             let jobs_ref = &jobs;
             let fe = par_run(
                 jobs.len(),
@@ -855,6 +967,7 @@ mod mon_bytes_run {
                 |a, b| a.merge(b),
             );
             acc.merge(fe);
+            acc.merge(sp_acc);
             if acc.get("cli_files_scanned") < 100 || acc.get("wrapper_files_scanned") < 100 {
                 acc.inconclusive.push("too few front-end outputs scanned".into());
             }
